@@ -118,6 +118,10 @@ def _guard(f):
 
 
 def _rep(v):
+    if type(v).__name__ == 'Point' and hasattr(v, 'x'):
+        return {'Point': [_rep(v.x), _rep(v.y)]}
+    if isinstance(v, (set, frozenset)):
+        return {'set': sorted(_rep(x) for x in v)}
     if isinstance(v, BaseException):
         return {'exc': type(v).__name__, 'args': _rep(list(v.args))}
     if isinstance(v, bytes):
